@@ -58,6 +58,26 @@ func (o OracleC17) AfterHalt(x *Exec, op *Op, res *Res) {
 			}
 		}
 	}
+	// Listed finding F-C17d: governance accepts any non-negative reward weight; once weight x
+	// native bonded stake exceeds what x/staking can express as consensus power (int64 of
+	// tokens / 1e6, about 9.2e24 tokens) the rebalancer mints it and x/staking panics
+	if strings.Contains(msg, "Int64() out of bound") {
+		sum := new(big.Rat)
+		for _, dn := range pre.AssetOrder {
+			a := pre.Assets[dn]
+			// the weight the end-blocker will use: decay towards the range bound is applied first
+			w := decRat(a.RewardWeight)
+			if a.RewardChangeInterval > 0 && a.RewardChangeRate.GT(math.LegacyOneDec()) {
+				w = decRat(a.RewardWeightRange.Max)
+			}
+			sum.Add(sum, new(big.Rat).Mul(w, intRat(pre.TotalBonded)))
+		}
+		if sum.Cmp(new(big.Rat).SetInt(pow10(24))) >= 0 {
+			x.KnownFinding("F-C17d")
+			x.Label("c17:alliance-stake-beyond-int64-power")
+			return
+		}
+	}
 	// Listed finding F-C04a (consequence): after an asset went through the ownerless-value state
 	// a position can be over-reported and over-withdrawn; the matured unbonding then exceeds
 	// custody and CompleteUnbondings fails with the bank's insufficient-funds error.
